@@ -13,20 +13,11 @@
 (*     without a terminal message (deviation D_ERR_CLOSES).                *)
 (* A session is identified with its client name.                           *)
 (***************************************************************************)
-EXTENDS CoreSpec
+EXTENDS CoreSpec, Auth
 
 E_NOTIMPL == 19  E_UNAUTH == 14  E_CANCELLED == 22
 
-(***************************************************************************)
-(* auth::pattern_matches(grant, requested)  (auth.rs:191-214), literally   *)
-(***************************************************************************)
-RECURSIVE AuthMatches(_, _)
-AuthMatches(g, k) ==
-  IF g = <<>> /\ k = <<>> THEN TRUE
-  ELSE IF g # <<>> /\ Head(g) = MULTI /\ k # <<>> THEN TRUE
-  ELSE IF g = <<>> \/ k = <<>> THEN FALSE
-  ELSE /\ (Head(g) = WILD /\ Head(k) # MULTI) \/ Head(g) = Head(k)
-       /\ AuthMatches(Tail(g), Tail(k))
+\* AuthMatches: auth::pattern_matches(grant, requested), see Auth.tla
 
 \* privilege and pattern the protocol layer checks per request kind
 Priv(r) ==
